@@ -102,3 +102,55 @@ pub fn seg_c<F: Float>(pl: Coord<F>, pr: Coord<F>, is_subject: bool, contour_id:
     r.set_other_event(&l);
     Seg { l, r }
 }
+
+// ------------------------------------------------------------------------------------------------
+// BinaryHeap as environment: where the heap is not the subject (its correctness is conditional on the
+// event order, which C15 decides), `push` is replaced by a recorder and `pop` by a scripted queue.
+// The element type is pointer-sized (Rc<SweepEvent<F>>); elements are kept as raw pointers.
+use std::alloc::Allocator;
+use std::collections::BinaryHeap;
+
+pub const HEAP_CAP: usize = 12;
+pub static mut PUSHED: [*const (); HEAP_CAP] = [std::ptr::null(); HEAP_CAP];
+pub static mut NPUSHED: usize = 0;
+pub static mut SCRIPT: [*const (); HEAP_CAP] = [std::ptr::null(); HEAP_CAP];
+pub static mut NSCRIPT: usize = 0;
+pub static mut ISCRIPT: usize = 0;
+
+pub fn heap_push_record<T: Ord, A: Allocator>(_h: &mut BinaryHeap<T, A>, item: T) {
+    assert!(std::mem::size_of::<T>() == std::mem::size_of::<*const ()>());
+    unsafe {
+        let p: *const () = std::mem::transmute_copy(&item);
+        if NPUSHED < HEAP_CAP {
+            PUSHED[NPUSHED] = p;
+        }
+        NPUSHED += 1;
+    }
+    std::mem::forget(item);
+}
+pub fn heap_pop_scripted<T: Ord, A: Allocator>(_h: &mut BinaryHeap<T, A>) -> Option<T> {
+    assert!(std::mem::size_of::<T>() == std::mem::size_of::<*const ()>());
+    unsafe {
+        if ISCRIPT < NSCRIPT {
+            let p = SCRIPT[ISCRIPT];
+            ISCRIPT += 1;
+            Some(std::mem::transmute_copy::<*const (), T>(&p))
+        } else {
+            None
+        }
+    }
+}
+/// hand an event to the scripted queue (ownership of one strong reference moves into the script)
+pub fn script_push<F: Float>(e: &Rc<SweepEvent<F>>) {
+    let c = e.clone();
+    unsafe {
+        let p: *const () = std::mem::transmute_copy(&c);
+        SCRIPT[NSCRIPT] = p;
+        NSCRIPT += 1;
+    }
+    std::mem::forget(c);
+}
+/// the k-th recorded push as an event (borrowed view: the caller must forget the returned Rc)
+pub fn pushed<F: Float>(k: usize) -> Rc<SweepEvent<F>> {
+    unsafe { std::mem::transmute_copy::<*const (), Rc<SweepEvent<F>>>(&PUSHED[k]) }
+}
